@@ -27,7 +27,7 @@ TWO_BRANCH_CONTEXTS = ('ifelse', 'ifelse_unres', 'nested_ifelse_arg', 'ifelse_sa
 # the call is written with the wrapper's star names, but in a scope where those names are bound to something else (the
 # parameters of a nested function, the targets of a comprehension): nothing of the wrapper's is forwarded
 SHADOW_CONTEXTS = ('shadow_nested', 'shadow_async', 'shadow_comp')
-ROUTES = ('global', 'closure', 'attr1', 'attr2', 'method', 'param', 'partial', 'wrapsdeco', 'helper', 'kpartial')
+ROUTES = ('global', 'closure', 'attr1', 'attr2', 'method', 'param', 'partial', 'wrapsdeco', 'helper', 'kpartial', 'partial_helper')
 TAINTS_ANY = ('rebind', 'augassign', 'delrebind', 'fortarget', 'withas', 'walrus', 'starunpack', 'nonlocal',
               'importas', 'fromimportas', 'defname', 'classname', 'matchcapture', 'matchstar')
 TAINTS_VK = ('methodcall', 'itemstore', 'handover', 'handoverkw', 'nested_methodcall', 'nested_itemstore',
@@ -40,7 +40,7 @@ def star(outer, kind):
 
 def callee_ref(route, uid, j):
     base = 'C%s_%d' % (uid, j)
-    if route in ('global', 'wrapsdeco', 'wrapssig', 'helper'):
+    if route in ('global', 'wrapsdeco', 'wrapssig', 'helper', 'partial_helper'):
         return base
     if route == 'kpartial':
         return 'KB%s_%d' % (uid, j)
@@ -81,6 +81,9 @@ def call_expr(prog, uid, j):
     if prog.route == 'helper':
         # through a helper that many wrappers share, each handing it another callee
         return 'APPLY(%s)' % ', '.join([ref] + parts)
+    if prog.route == 'partial_helper':
+        # a partial object over that helper: the callee is the first argument bound to it
+        return 'functools.partial(%s)' % ', '.join(['APPLY', ref] + parts)
     return '%s(%s)' % (ref, ', '.join(parts))
 
 
